@@ -302,7 +302,7 @@ double Interpolation::Local_Minimum(double x_1, double x_2)
 	else
 	{
 		// Find the smallest value of function_values between i_1+1 and i_2 (both included).
-		double min_entry = *std::min_element(function_values.begin() + i_1 + 1, function_values.begin() + i_2 + 1);
+		double min_entry = (prefactor < 0.0) ? prefactor * *std::max_element(function_values.begin() + i_1 + 1, function_values.begin() + i_2 + 1) : prefactor * *std::min_element(function_values.begin() + i_1 + 1, function_values.begin() + i_2 + 1);
 		return std::min({f_left, min_entry, f_right});
 	}
 }
@@ -319,19 +319,23 @@ double Interpolation::Local_Maximum(double x_1, double x_2)
 	else
 	{
 		// Find the largest value of function_values between i_1+1 and i_2 (both included).
-		double max_entry = *std::max_element(function_values.begin() + i_1 + 1, function_values.begin() + i_2 + 1);
+		double max_entry = (prefactor < 0.0) ? prefactor * *std::min_element(function_values.begin() + i_1 + 1, function_values.begin() + i_2 + 1) : prefactor * *std::max_element(function_values.begin() + i_1 + 1, function_values.begin() + i_2 + 1);
 		return std::max({f_left, max_entry, f_right});
 	}
 }
 
 double Interpolation::Global_Minimum()
 {
-	return *std::min_element(function_values.begin(), function_values.end());
+	if(prefactor < 0.0)
+		return prefactor * *std::max_element(function_values.begin(), function_values.end());
+	return prefactor * *std::min_element(function_values.begin(), function_values.end());
 }
 
 double Interpolation::Global_Maximum()
 {
-	return *std::max_element(function_values.begin(), function_values.end());
+	if(prefactor < 0.0)
+		return prefactor * *std::min_element(function_values.begin(), function_values.end());
+	return prefactor * *std::max_element(function_values.begin(), function_values.end());
 }
 
 void Interpolation::Save_Function(std::string filename, unsigned int points)
@@ -468,15 +472,15 @@ double Interpolation_2D::Global_Minimum()
 {
 	std::vector<double> row_minima;
 	for(auto& row : function_values)
-		row_minima.push_back(*std::min_element(row.begin(), row.end()));
-	return *std::min_element(row_minima.begin(), row_minima.end());
+		row_minima.push_back((prefactor < 0.0) ? *std::max_element(row.begin(), row.end()) : *std::min_element(row.begin(), row.end()));
+	return (prefactor < 0.0) ? prefactor * *std::max_element(row_minima.begin(), row_minima.end()) : prefactor * *std::min_element(row_minima.begin(), row_minima.end());
 }
 double Interpolation_2D::Global_Maximum()
 {
 	std::vector<double> row_maxima;
 	for(auto& row : function_values)
-		row_maxima.push_back(*std::max_element(row.begin(), row.end()));
-	return *std::max_element(row_maxima.begin(), row_maxima.end());
+		row_maxima.push_back((prefactor < 0.0) ? *std::min_element(row.begin(), row.end()) : *std::max_element(row.begin(), row.end()));
+	return (prefactor < 0.0) ? prefactor * *std::min_element(row_maxima.begin(), row_maxima.end()) : prefactor * *std::max_element(row_maxima.begin(), row_maxima.end());
 }
 
 void Interpolation_2D::Save_Function(std::string filename, unsigned int x_points, unsigned int y_points)
